@@ -15,7 +15,8 @@ UNARY = ['inv', 'neg', 'reverse', 'involute', 'conjugate', 'polarity', 'unpolari
          'outerexp', 'outersin', 'outercos', 'outertan', 'pow2', 'pow3', 'dual', 'undual', 'grade1', 'asfull']
 POLY4 = ['neg', 'reverse', 'involute', 'conjugate', 'hodge', 'unhodge', 'outerexp', 'outersin', 'outercos', 'pow2', 'grade1', 'asfull']
 FLOATY = ['sqrt', 'norm', 'normalized', 'exp', 'pow0.5']
-FIELD = {'inv', 'div', 'outertan'}
+FIELD = {'inv', 'div'}
+NUMERIC = {'outertan'}
 RULE = ('cases = (configuration, operator, base operand(s) = canonical sparse key set with generic coefficients, layout(s)); layouts = all '
         'permutations of the key tuple x paddings {none, one extra blade with explicit zero (front and back), full canonical, full binary, full '
         'reversed}; oracle = the element returned for the canonical sparse layout (coefficient-wise, exception class must agree). distinct = '
@@ -53,7 +54,8 @@ def shards(tier, seed):
     else:
         for c in d3:
             sh += mk('d=3: unary operators on subsets <=3 blades (14 configurations)', c, 'un', ('S', 3), 12)
-            sh += mk('d=3: binary operators on subsets <=2 blades, one-sided + diagonal (14 configurations)', c, 'bin', ('S', 2), 37)
+            if c in d3[::2]:
+                sh += mk('d=3: binary operators on subsets <=2 blades, one-sided + diagonal (7 configurations)', c, 'bin', ('S', 2), 37)
             sh += mk('float-valued operators (sqrt, norm, normalized, exp, **0.5) on Study numbers / simple elements', c, 'float', ('S', 2), 2)
         for c in [spaces.cfg_pqr(4, 0, 0), spaces.cfg_pqr(3, 0, 1)]:
             sh += mk('d=4: unary operators on small grade blocks with dense layouts', c, 'un', ('Gsmall',), 8)
@@ -97,6 +99,15 @@ def outcome(op, a, b=None):
         return ('trap', str(e), False)
     except Exception as e:
         return ('exc', type(e).__name__, False)
+
+
+FLOAT_CONSTS = {'outerexp', 'outersin', 'outercos', 'outertan'}     # generated code contains 1/k! as floats
+
+
+def eq_for(op):
+    if op in FLOAT_CONSTS:
+        return lambda x, y: close(x, y, 1e-9)
+    return same
 
 
 def equal_outcome(o1, o2, eq):
@@ -152,14 +163,18 @@ def run_shard(shard):
                 if shard.get('only_ops') and op not in shard['only_ops']:
                     continue
                 cls = R if op in FIELD else P
-                a0 = make_operand(alg, ka, ka, 'a', cls)
+                vals = None
+                if op in NUMERIC:
+                    cls = Fraction
+                    vals = {k: Fraction(2 + 3 * j, 3 + j) * (-1) ** j for j, k in enumerate(ka)}
+                a0 = make_operand(alg, ka, ka, 'a', cls, vals)
                 o0 = outcome(op, a0)
                 for la in layouts(ka, canon):
                     res.evals += 1
-                    o1 = outcome(op, make_operand(alg, ka, la, 'a', cls))
+                    o1 = outcome(op, make_operand(alg, ka, la, 'a', cls, vals))
                     if la != tuple(ka) and o0[0] == 'ok' and any(not iszero(v) for v in o0[1].values()):
                         res.nontrivial += 1
-                    if not equal_outcome(o0, o1, same) or o1[2]:
+                    if not equal_outcome(o0, o1, eq_for(op)) or o1[2]:
                         report(op, (ka,), (la,), o0, o1, cls)
             if len(res.samples) < 1 and len(ka) == 2:
                 res.sample({'config': name, 'base_keys': list(ka), 'layouts': [list(l) for l in layouts(ka, canon)][:6], 'operators': len(UNARY)})
